@@ -10,9 +10,12 @@ random part beyond the exhaustive domain (up to the real 24 positions, 4-bit add
 the 32 IPv4 bits, more ports).  Every Add / Remove / Check / Load event carries what was asked and the
 list read back from the object; TLC validates every trace against AclTrace.tla.
 
-Every stimulus is generated in two variants, "falsy" (may use port 0, a valid port that is falsy in
-Python) and "clean" (port 0 renamed to another port), so that a divergence triggered by the former
-does not hide the rest of the behaviour.
+Ports.  0 is PORT_LOOKUP["NONE"], this code base's "no port" value: a rule written with port NONE is a
+rule with an unspecified port (ACLRule.permit_frame_check / describe_state treat it so).  Model ports
+(the model's 0 included) are therefore embedded only as non-zero real ports, and every stimulus comes in
+two classes: "plain", and "sentinel" - the same operations with some unspecified rule ports spelt
+0 / "NONE" through the door (the model rule still says "unspecified"; see rec_acl).  Model protocols
+are only tcp / udp / icmp.
 """
 from __future__ import annotations
 
@@ -26,8 +29,8 @@ from . import rec_acl as ra
 
 PROP = "C07"
 LISTS = ["router"] + [f"fw:{z}:{d}" for z, d in ra.FW_LISTS]
-# |CoverRules| = 42, |CoreRules| = 10 (MC_Acl.tla): every list over 3 positions, both implicit actions
-EXPECTED_DISTINCT = 2 * (43**3 + 11**3)
+# |CoverRules| = 34, |CoreRules| = 10 (MC_Acl.tla): every list over 3 positions, both implicit actions
+EXPECTED_DISTINCT = 2 * (35**3 + 11**3)
 EXPECTED_CHECKS = 2 * 11**3 * 144
 
 
@@ -44,12 +47,30 @@ def _map_ports(d: Dict[str, Any], portmap: Dict[int, int]) -> Dict[str, Any]:
     return d
 
 
+PORTMAP = {0: 21, 53: 53, 80: 80}  # model port -> real port: never the NONE(0) sentinel
+
+
+def _spell_none(r: Dict[str, Any], rng: random.Random) -> List[str]:
+    """Sentinel class: which of the rule's unspecified ports are spelt NONE(0) instead of None / 'ALL' / absent."""
+    return [k for k in ("sport", "dport") if r[k] == ra.ANYN and rng.random() < 0.5]
+
+
+def _sentinel_copy(ops: List[Dict[str, Any]], rng: random.Random) -> List[Dict[str, Any]]:
+    out = []
+    for op in ops:
+        op = dict(op)
+        if op["op"] == "add":
+            op["none_ports"] = _spell_none(op["rule"], rng)
+        out.append(op)
+    return out
+
+
 def _ops_from_behaviour(beh, portmap: Dict[int, int], posmap: List[int]) -> List[Dict[str, Any]]:
     ops = []
     for st in beh[1:]:
         last = st["state"]["last"]
         if last["ev"] == "Add":
-            ops.append({"op": "add", "pos": posmap[last["pos"]], "rule": _map_ports(last["rule"], portmap)})
+            ops.append({"op": "add", "pos": posmap[last["pos"]], "rule": _map_ports(last["rule"], portmap), "none_ports": []})
         elif last["ev"] == "Remove":
             ops.append({"op": "remove", "pos": posmap[last["pos"]]})
         elif last["ev"] == "Check":
@@ -64,36 +85,37 @@ def _split_for_loading(ops: List[Dict[str, Any]]):
     best, best_i, best_table = -1, -1, {}
     for i, op in enumerate(ops):
         if op["op"] == "add":
-            table[op["pos"]] = op["rule"]
+            table[op["pos"]] = {"r": op["rule"], "none_ports": op.get("none_ports", [])}
         elif op["op"] == "remove":
             table.pop(op["pos"], None)
         if len(table) > best:
             best, best_i, best_table = len(table), i, dict(table)
-    load = [{"pos": p, "r": r} for p, r in sorted(best_table.items())]
+    load = [{"pos": p, "r": e["r"], "none_ports": e["none_ports"]} for p, e in sorted(best_table.items())]
     return load, ops[best_i + 1:]
 
 
 def _stimuli_from_behaviour(k: int, beh, rng: random.Random) -> List[Dict[str, Any]]:
     out = []
-    for variant, portmap in (("falsy", {0: 0, 53: 53, 80: 80}), ("clean", {0: 21, 53: 53, 80: 80})):
+    for cls in ("plain", "sentinel"):
         for door in ("api", "request", "config"):
             emb = ra.Embedding.random(rng, 2)
-            stim: Dict[str, Any] = {"door": door, "variant": variant, "source": "tlc", "emb": emb.to_json(),
+            stim: Dict[str, Any] = {"door": door, "class": cls, "source": "tlc", "emb": emb.to_json(),
                                     "style": rng.randrange(10**6)}
             if door == "api":
                 n = 3 if k % 3 else 24
                 posmap = [0, 1, 2] if n == 3 else sorted(rng.sample(range(24), 3))
-                imp = beh[0]["state"]["implicit"]
-                stim.update({"list": "standalone", "n": n, "implicit": imp, "ops": _ops_from_behaviour(beh, portmap, posmap)})
+                stim.update({"list": "standalone", "n": n, "implicit": beh[0]["state"]["implicit"]})
             else:
                 posmap = sorted(rng.sample(range(24), 3))
-                ops = _ops_from_behaviour(beh, portmap, posmap)
                 stim["list"] = LISTS[(k + (3 if door == "config" else 0)) % len(LISTS)]
-                if door == "config":
-                    load, rest = _split_for_loading(ops)
-                    stim.update({"load": load, "ops": rest})
-                else:
-                    stim["ops"] = ops
+            ops = _ops_from_behaviour(beh, PORTMAP, posmap)
+            if cls == "sentinel":
+                ops = _sentinel_copy(ops, rng)
+            if door == "config":
+                load, rest = _split_for_loading(ops)
+                stim.update({"load": load, "ops": rest})
+            else:
+                stim["ops"] = ops
             out.append(stim)
     return out
 
@@ -107,7 +129,7 @@ def _random_rule(rng: random.Random, width: int, ports: List[int]) -> Dict[str, 
     top = (1 << width) - 1
     r = ra.rule(action=rng.choice(["permit", "deny"]))
     if rng.random() < 0.45:
-        r["proto"] = rng.choice(["tcp", "udp", "icmp", "tcp", "udp", "icmp", "none"])
+        r["proto"] = rng.choice(["tcp", "udp", "icmp"])
     for a, m in (("src", "smask"), ("dst", "dmask")):
         x = rng.random()
         if x < 0.45:
@@ -152,7 +174,7 @@ def _random_packet(rng: random.Random, width: int, ports: List[int], table: Dict
     return p
 
 
-def _random_stimulus(rng: random.Random, door: str, variant: str, length: int) -> Dict[str, Any]:
+def _random_stimulus(rng: random.Random, door: str, cls: str, length: int) -> Dict[str, Any]:
     names = ra.port_names()
     named = sorted(v for v in names if v > 0)
     width = 4
@@ -160,14 +182,13 @@ def _random_stimulus(rng: random.Random, door: str, variant: str, length: int) -
     ports = rng.sample(named, 4)
     if door != "config" and rng.random() < 0.5:
         ports += [rng.choice([1, 8081, 65535, 1024, 3000])]  # unnamed ports (not expressible in a scenario file)
-    if variant == "falsy":
-        ports.append(0)
+    pkt_ports = ports + ([0] if cls == "sentinel" else [])  # packets may carry port 0; rules never specify it
     if door == "api":
         which, n = "standalone", rng.choice([3, 4, 8, 24, 24])
     else:
         which, n = rng.choice(LISTS), 24
     hot = sorted(rng.sample(range(n), min(n, rng.choice([3, 4, 6]))))  # positions used most, to get overwrites
-    stim: Dict[str, Any] = {"door": door, "variant": variant, "source": "random", "list": which, "emb": emb.to_json(),
+    stim: Dict[str, Any] = {"door": door, "class": cls, "source": "random", "list": which, "emb": emb.to_json(),
                             "style": rng.randrange(10**6)}
     if door == "api":
         stim.update({"n": n, "implicit": rng.choice(["permit", "deny"])})
@@ -175,7 +196,8 @@ def _random_stimulus(rng: random.Random, door: str, variant: str, length: int) -
     if door == "config":
         for pos in rng.sample(range(n), rng.randint(0, 6)):
             table[pos] = _random_rule(rng, width, ports)
-        stim["load"] = [{"pos": p, "r": r} for p, r in sorted(table.items())]
+        stim["load"] = [{"pos": p, "r": r, "none_ports": _spell_none(r, rng) if cls == "sentinel" else []}
+                        for p, r in sorted(table.items())]
     ops = []
     for _ in range(length):
         x = rng.random()
@@ -183,13 +205,13 @@ def _random_stimulus(rng: random.Random, door: str, variant: str, length: int) -
             pos = rng.choice(hot) if rng.random() < 0.75 else rng.randrange(n)
             r = _random_rule(rng, width, ports)
             table[pos] = r
-            ops.append({"op": "add", "pos": pos, "rule": r})
+            ops.append({"op": "add", "pos": pos, "rule": r, "none_ports": _spell_none(r, rng) if cls == "sentinel" else []})
         elif x < 0.40:
             pos = rng.choice(sorted(table)) if table and rng.random() < 0.8 else rng.randrange(n)
             table.pop(pos, None)
             ops.append({"op": "remove", "pos": pos})
         else:
-            ops.append({"op": "check", "pkt": _random_packet(rng, width, ports, table)})
+            ops.append({"op": "check", "pkt": _random_packet(rng, width, pkt_ports, table)})
     stim["ops"] = ops
     return stim
 
@@ -200,26 +222,17 @@ def _random_stimulus(rng: random.Random, door: str, variant: str, length: int) -
 
 
 def sig_fn(tr, event, stuck):
-    sig = {"door": tr.get("meta", {}).get("door")}
-    st = (stuck or {}).get("st") or {}
-    cause = ""
-    if event.get("ev") == "Check" and isinstance(st, dict):
-        try:
-            rules = {t[0]: t[2] for t in st["rules"]["__set__"]}
-        except Exception:  # noqa
-            rules = {}
-        r, p = rules.get(event.get("decider")), event["pkt"]
-        if r and ((r["sport"] == 0 and p["sport"] != 0) or (r["dport"] == 0 and p["dport"] != 0)):
-            cause = "rule-with-port-0-decided-a-packet-with-another-port"
-    elif event.get("ev") in ("Raised", "Refused"):
-        cause = str(tr.get("meta", {}).get("raised", "refused"))[:100]
-    sig["cause"] = cause
+    meta = tr.get("meta", {})
+    sig = {"door": meta.get("door"), "class": meta.get("class"), "role": str(meta.get("role", "")).split()[0]}
+    if event.get("ev") in ("Raised", "Refused"):
+        sig["cause"] = str(meta.get("raised", "refused"))[:100]
     return sig
 
 
-def _has_zero_port(stim: Dict[str, Any]) -> bool:
-    rules = [e["r"] for e in stim.get("load", [])] + [o["rule"] for o in stim["ops"] if o["op"] == "add"]
-    return any(r["sport"] == 0 or r["dport"] == 0 for r in rules)
+def _none_spellings(stim: Dict[str, Any]) -> int:
+    """Number of rule ports of the stimulus that are spelt NONE(0)."""
+    return sum(len(e.get("none_ports", [])) for e in stim.get("load", [])) + \
+        sum(len(o.get("none_ports", [])) for o in stim["ops"] if o["op"] == "add")
 
 
 def main(tier: str, seed: int) -> int:
@@ -230,7 +243,7 @@ def main(tier: str, seed: int) -> int:
     r = tlc.mc("MC_Acl", coverage=not quick, timeout=1500)
     if not r["ok"]:
         chk.violation({"module": "MC_Acl", "clause": str(r["violation"])}, {"tlc": r["output_tail"]})
-    chk.add_mc("MC_Acl(NPos=3, cover domain 42 rules x fill, core domain 10 rules x free, 144 packets)", r)
+    chk.add_mc("MC_Acl(NPos=3, cover domain 34 rules x fill, core domain 10 rules x free, 144 packets)", r)
     if r["ok"]:
         if r["distinct"] != EXPECTED_DISTINCT or r["states"] < EXPECTED_DISTINCT + EXPECTED_CHECKS:
             raise tlc.TLCError(f"vacuous model: MC_Acl found {r['distinct']} lists / {r['states']} transitions, "
@@ -245,7 +258,7 @@ def main(tier: str, seed: int) -> int:
             chk.add_mc("MC_AclWide(NPos=2, wide product domain 720 rules x fill, 144 packets)", r2)
             if r2["ok"] and r2["distinct"] != 2 * 721**2:
                 raise tlc.TLCError(f"vacuous model: MC_AclWide found {r2['distinct']} lists, expected {2 * 721**2}")
-    # 2. behaviours of the model -> stimuli through the three doors, two variants each
+    # 2. behaviours of the model -> stimuli through the three doors, two classes each
     nbeh = 36 if quick else 400
     behs, info = tlc.simulate("MC_Acl", cfg="MC_AclSim.cfg", num=nbeh, depth=14 if quick else 18, seed=seed + 1, timeout=1500)
     chk.cov["transitions"] += info["states"]
@@ -263,9 +276,9 @@ def main(tier: str, seed: int) -> int:
     # 3. random part beyond the exhaustive domain
     nrand = 40 if quick else 700
     for i in range(nrand):
-        for variant in ("falsy", "clean"):
+        for cls in ("plain", "sentinel"):
             for door in ("api", "request", "config"):
-                stimuli.append(_random_stimulus(rng, door, variant, 40 if quick else 70))
+                stimuli.append(_random_stimulus(rng, door, cls, 40 if quick else 70))
     # the other lists of a firewall are recorded for every stimulus (quick) / one in four (thorough: volume)
     for i, stim in enumerate(stimuli):
         stim["siblings"] = quick or i % 4 == 0
@@ -273,30 +286,30 @@ def main(tier: str, seed: int) -> int:
     common.boot()
     traces: List[Dict[str, Any]] = []
     per: Dict[str, int] = {}
+    none_rule_ports = 0
     for stim in stimuli:
+        none_rule_ports += _none_spellings(stim)
         for tr in ra.run_stimulus(stim):
-            tr["meta"]["variant"] = stim["variant"]
+            tr["meta"]["class"] = stim["class"]
             tr["meta"]["source"] = stim["source"]
-            tr["meta"]["zero_port_rule"] = _has_zero_port(stim)
             traces.append(tr)
-            key = f"{stim['source']}/{stim['door']}/{stim['variant']}/{tr['meta']['role'].split()[0]}"
+            key = f"{stim['source']}/{stim['door']}/{stim['class']}/{tr['meta']['role'].split()[0]}"
             per[key] = per.get(key, 0) + 1
         digest = hashlib.sha1(json.dumps([stim["ops"], stim.get("load")], sort_keys=True).encode()).hexdigest()
-        chk.add_case({"d": stim["door"], "l": stim["list"], "v": stim["variant"], "ops": digest},
+        chk.add_case({"d": stim["door"], "l": stim["list"], "c": stim["class"], "ops": digest},
                      nontrivial=any(o["op"] == "check" for o in stim["ops"]))
+    if none_rule_ports == 0:
+        raise tlc.TLCError("vacuous stimulus: no rule port was spelt NONE(0)")
     # 5. TLC judges every trace
     res = tlc.validate("AclTrace", traces, chunk=150 if quick else 300, parallel=8)
     common.judge_traces(chk, "Acl", traces, res, sig_fn)
-    rejected = {"falsy": 0, "clean": 0}
-    rejected_without_zero = 0
+    rejected: Dict[str, int] = {}
     for tr, (reached, length) in zip(traces, res["results"]):
         if reached != length + 1:
-            rejected[tr["meta"]["variant"]] += 1
-            if not tr["meta"]["zero_port_rule"]:
-                rejected_without_zero += 1
-    chk.cov["traces_by_source_door_variant"] = per
-    chk.cov["rejected_traces_by_variant"] = rejected
-    chk.cov["rejected_traces_without_a_port_0_rule"] = rejected_without_zero
+            rejected[tr["meta"]["class"]] = rejected.get(tr["meta"]["class"], 0) + 1
+    chk.cov["traces_by_source_door_class_role"] = per
+    chk.cov["rejected_traces_by_class"] = rejected
+    chk.cov["rule_ports_spelt_NONE_0"] = none_rule_ports
     chk.cov["lists_exercised"] = sorted({tr["meta"]["list"] for tr in traces})
     chk.cov["model_actions_in_stimulus"] = model_actions
     for tr in traces[:2] + traces[-2:]:
@@ -306,6 +319,9 @@ def main(tier: str, seed: int) -> int:
         "the embedding of model addresses into IPv4 (distinct bit positions, constant other bits) preserves masked comparison",
         "rules are read from AccessControlList._acl (object fields), hit counters from describe_state()",
         "the implicit rule counts as 'the deciding rule' when no rule matches (its match_count is the counter checked)",
+        "a rule port of NONE(0) is an unspecified port (PORT_LOOKUP['NONE'] = 0; ACLRule.permit_frame_check and "
+        "describe_state treat a falsy port as not specified): model ports are embedded as non-zero ports only, the "
+        "read-back maps None/0 to unspecified; protocol 'none' is not used",
         "the counter a newly added rule starts with is not constrained (statement is silent); positions stay inside the list",
     ]
     return chk.finish()
